@@ -8,6 +8,8 @@ NOTE = ("Trusted: z3 5.1 / cvc5 1.0.3 verdicts; the pyvc executor's encoding of 
         "bs4/lxml/cssutils; floats under the standard error model (binary64, round-to-nearest, no overflow); "
         "the bounded parts are run-time contract evaluation, never counted as proof. See evidence/<id>.json.")
 CLAIMED = {
+ "C05": ("ground evaluation over the CEA-608 code tables + contract-based deductive verification (position mapping, tracker transition function, loop-invariant proof of the italics alternation pass) + bounded programs against a reference CEA-608 decoder",
+         "P-ground: character / PAC / tab-offset tables agree with CEA-608, doubled codes count once for every table word (PAC TO PAC TO as a unit), backspace / extended-character replacement; P: (row, col) -> safe-area percentages, position-tracker transitions, italics nodes alternate after the redundancy pass for any node list; B: pop-on programs vs a reference decoder (one known finding: new caption one row below the previous one)", "3 C05"),
  "C17": ("ground evaluation over the code tables + contract-based deductive verification (AST->SMT VCs: symbolic string lengths, float standard model on the PASS 2-3 region) + bounded round trips through a reference CEA-608 decoder",
          "P-ground: every byte the writer can emit has odd parity, PAC rows 1-15, control words are the CEA-608 codes; P: half-word / word-boundary arithmetic of the code string, PASS 2-3 transmission times (words+8 frames early, erase line kept only if >3 frames before the next line, non-negative non-decreasing times) for two captions; B: timestamp formatting around every boundary, full round trips (reference decoder + own reader)", "3 C17"),
  "C06": ("contract-based deductive verification (AST->SMT VCs: float standard model for the timecode arithmetic, loop invariants over a field-array heap for the caption-list corrections) + bounded run-time contracts on generated pop-on programs",
